@@ -46,6 +46,18 @@ CHECKS = {
   text="For seven transaction kinds (eth legacy / access-list / dynamic-fee, Cosmos DIRECT, Cosmos LEGACY_AMINO_JSON, legacy EIP-712 with Web3Tx extension, EIP-712-signed sign doc) every single-field mutation applied after signing (tx fields, signature values incl. malleated s and flipped v, chain id, Cosmos envelope fields, signer info, extension options, sign-doc account number / foreign key) is delivered, each followed by the untouched original; and every order <= 3 (thorough 4) over {t(n), t(n+1), t(n+1) and t(n) signed for another chain id, t(n+2), mutated t(n)} is delivered. Accepted iff validly signed for the current sequence; accepted transactions advance the sequence by exactly one and transfer exactly once.",
   note="DeliverTx only (CheckTx uses the same ante chain on a state the harness does not branch). Base fee enabled in the fixture so dynamic-fee txs are admissible. Only-if direction; acceptance of every valid kind is required as a vacuity guard.",
   design="DESIGN.md §3 C03"),
+ "C06": dict(
+  technique="exhaustive enumeration of message forests and extension-option lists through the real DeliverTx (real ante chain) on branches, judged by an independent tree predicate plus state inspection",
+  engine="E1",
+  text="All ordered message forests with <= 4 (thorough 5) nodes over {authz exec wrapper, bank send, MsgEthereumTx, grant of a blocked type (eth tx / SDK vesting account), grant of an allowed type, packed unregistered vesting message}, exec chains of depth 1..9 and sibling rows of width 6..8 across the nesting cap, crossed with 29 extension-option lists (EthereumTx, Web3Tx, DynamicFeeTx, unknown; pairs; non-critical) — ~90k transactions (quick) correctly signed wherever the route allows. Where the reference predicate says 'must reject' the response code must be non-zero and recipient balance, blocked grants and signer sequence must be untouched.",
+  note="Exec wrappers name the signer as grantee (no stored grants needed). Shapes whose legacy EIP-712 typed data cannot be built are delivered with an unsigned Web3Tx option. Only rejections demanded by the statement are required.",
+  design="DESIGN.md §3 C06"),
+ "C07": dict(
+  technique="exhaustive grid enumeration of fee/gas parameters through the real DeliverTx on branches against math/big reference arithmetic and hand-computed EVM gas constants",
+  engine="E1",
+  text="7 (thorough 10) fee-market fixtures (base fee disabled/7/1e9; min gas price 0/below/equal/fractional; multiplier 0/0.5/1) x {legacy, access-list, dynamic-fee, two-message eth, Cosmos, Cosmos+DynamicFee option} x gas limits x prices around the floor (floor-1, floor, floor+1, base-1, ...) x tips x {transfer, refund-earning SSTORE clear, revert, out of gas}: acceptance implies fee >= ceil(mgp x gasLimit) and feeCap >= baseFee; for executed eth txs gasUsed = max(EVM gas after refunds, floor(mult x limit)) <= limit, sender pays exactly value + gasUsed x effectivePrice, the collector receives exactly that, response GasUsed/GasWanted agree.",
+  note="EVM gas of the four fixed programs is computed by hand from the yellow-paper schedule. Declared fee is what the acceptance clause is checked against (deducted < floor on the Cosmos route is an observation). DeliverTx only.",
+  design="DESIGN.md §3 C07"),
 }
 
 PENDING = {}
